@@ -463,10 +463,12 @@ Section World.
         eapply sh_set; [reflexivity|exact Hlt|now left|]. rewrite E. cbn [obj_inv].
         intros cs0 H0. eapply t_extend_ext; eauto.
     - (* NewRodeo *)
-      cbn [op_wf] in Hwf. cbn [new_slot fst snd]. split; [|discriminate].
+      cbn [op_wf] in Hwf. destruct (isize_max <? cap); [same|].
+      cbn [new_slot fst snd]. split; [|discriminate].
       eapply sh_new with (cs := []); [reflexivity|]. cbn [obj_inv]. now apply rodeo_new_inv.
     - (* NewThreaded *)
-      cbn [op_wf] in Hwf. cbn [new_slot fst snd]. split; [|discriminate].
+      cbn [op_wf] in Hwf. destruct (isize_max <? cap); [same|].
+      cbn [new_slot fst snd]. split; [|discriminate].
       eapply sh_new with (cs := []); [reflexivity|]. cbn [obj_inv]. now apply trodeo_new_inv.
   Qed.
 
@@ -782,6 +784,7 @@ Section World.
         if th then snd (t_extend (trodeo_new default_bytes usize_max) l) = false
         else snd (r_extend (rodeo_new default_bytes usize_max) l) = false
     | De k (DList l) => (k = KRodeo \/ k = KReader) /\ keycap < N.of_nat (length l)
+    | NewRodeo cap _ | NewThreaded cap _ => isize_max < cap
     | _ => False
     end.
 
@@ -864,6 +867,10 @@ Section World.
       cbn [panic_cause]. destruct (get_obj w i) as [r|t|r|strs a|]; try nopanic.
       + destruct (r_extend r l) as [r' ok]. destruct ok; [nopanic|reflexivity].
       + destruct (t_extend t l) as [t' ok]. destruct ok; [nopanic|reflexivity].
+    - (* NewRodeo *)
+      cbn [panic_cause]. destruct (isize_max <? cap) eqn:Ec; [intros _; now apply N.ltb_lt|nopanic].
+    - (* NewThreaded *)
+      cbn [panic_cause]. destruct (isize_max <? cap) eqn:Ec; [intros _; now apply N.ltb_lt|nopanic].
   Qed.
 
 
